@@ -28,7 +28,7 @@ func init() {
 		Assumptions: []string{"query-time WHERE only sees the dims kept in the table's key, so the tables group by all generated dims", "HAVING comparisons between two fields only use strict operators (both-unset is indistinguishable from 0 in flat rows)", "database clock = newest accepted timestamp"},
 		Cases: func(tier string) int {
 			if tier == "quick" {
-				return 16
+				return 48
 			}
 			return 160
 		},
